@@ -111,6 +111,8 @@ def push_forward(element, R, cell):
     if kind == "CovariantPiola":
         return _apply_last(K.T, R)
     if kind == "L2Piola":
+        if not isinstance(R, np.ndarray):
+            return R / detJ
         out = zeros(R.shape)
         for idx in np.ndindex(R.shape):
             out[idx] = R[idx] / detJ
